@@ -33,7 +33,7 @@ EDGES = [1 << 17, 1 << 20, 1 << 23, 1 << 26, 1 << 29]
 
 def budget(tier):
     if tier == "quick":
-        return {"runs": 2400, "wall": 50, "chunk": 6}
+        return {"runs": 2400, "wall": 120, "chunk": 6}
     return {"runs": 60000, "wall": 1500, "chunk": 8}
 
 
